@@ -797,6 +797,106 @@ pub fn gen(opts: &Opts, conflict_rate: usize, ntables: usize) -> Vec<Case> {
     (0..ntables).map(|_| gen_case(&mut rng, conflict_rate, 6, 16, &chain)).collect()
 }
 
+/// Small-scope enumeration: every endpoint over templates of depth <= 2 on
+/// literals {a,b}, variables {x,y} and the wildcard {w:.*} (wherever it
+/// stands), methods {GET,PUT}, four range kinds over a 3-chain; every request
+/// path of depth <= 3 over {a,b,c} x both methods x every version.  Thorough:
+/// every ordered pair of endpoints (so both registration orders); quick: a
+/// seeded sample of pairs and triples.
+pub fn small_space() -> Vec<EpSpec> {
+    let segs = ["a", "b", "{x}", "{y}", "{w:.*}"];
+    let mut tpls: Vec<String> = vec!["/".to_string()];
+    for s1 in segs {
+        tpls.push(format!("/{}", s1));
+        for s2 in segs {
+            tpls.push(format!("/{}/{}", s1, s2));
+        }
+    }
+    let ranges = [
+        RangeSpec { kind: "all".into(), a: 0, b: 0 },
+        RangeSpec { kind: "from".into(), a: 1, b: 0 },
+        RangeSpec { kind: "until".into(), a: 0, b: 1 },
+        RangeSpec { kind: "fromuntil".into(), a: 1, b: 1 },
+    ];
+    let mut out = vec![];
+    for t in &tpls {
+        for m in ["GET", "PUT"] {
+            for r in &ranges {
+                out.push(EpSpec {
+                    id: String::new(),
+                    method: m.to_string(),
+                    path: t.clone(),
+                    range: r.clone(),
+                    ctype: 0,
+                    maxbytes: None,
+                    visible: true,
+                });
+            }
+        }
+    }
+    out
+}
+
+pub fn small_case(eps: Vec<EpSpec>) -> Case {
+    let mut eps = eps;
+    for (i, e) in eps.iter_mut().enumerate() {
+        e.id = format!("op{}", i);
+    }
+    let mut paths = vec!["/".to_string()];
+    let alpha = ["a", "b", "c"];
+    for x in alpha {
+        paths.push(format!("/{}", x));
+        for y in alpha {
+            paths.push(format!("/{}/{}", x, y));
+            for z in alpha {
+                paths.push(format!("/{}/{}/{}", x, y, z));
+            }
+        }
+    }
+    Case {
+        chain: vec!["1.0.0".into(), "2.0.0".into(), "3.0.0".into()],
+        eps,
+        paths,
+        methods: vec!["GET".into(), "PUT".into()],
+        versions: vec![Some(0), Some(1), Some(2)],
+    }
+}
+
+pub fn gen_small(opts: &Opts) -> Vec<Case> {
+    let space = small_space();
+    let mut out = vec![];
+    if opts.thorough {
+        for e in &space {
+            out.push(small_case(vec![e.clone()]));
+        }
+        for e1 in &space {
+            for e2 in &space {
+                out.push(small_case(vec![e1.clone(), e2.clone()]));
+            }
+        }
+    } else {
+        let mut rng = Rng::new(opts.seed ^ 0x5a11);
+        for _ in 0..900 {
+            let a = space[rng.below(space.len())].clone();
+            // bias the partner towards the same first segment, so that the two interact
+            let mut b = space[rng.below(space.len())].clone();
+            if rng.chance(1, 2) {
+                let mut tries = 0;
+                while tries < 20 && b.path.split('/').nth(1) != a.path.split('/').nth(1) {
+                    b = space[rng.below(space.len())].clone();
+                    tries += 1;
+                }
+            }
+            out.push(small_case(vec![a, b]));
+        }
+        for _ in 0..300 {
+            let v: Vec<EpSpec> = (0..3).map(|_| space[rng.below(space.len())].clone()).collect();
+            out.push(small_case(v));
+        }
+    }
+    out
+}
+
 pub fn run(opts: &Opts, replay: Option<Vec<serde_json::Value>>, out: &mut dyn Write, conflict_rate: usize) {
     let live = opts.mode == "live";
     let cases: Vec<Case> = match replay {
@@ -810,6 +910,8 @@ pub fn run(opts: &Opts, replay: Option<Vec<serde_json::Value>>, out: &mut dyn Wr
                 let mut o = Opts { seed: opts.seed ^ 0x11fe, thorough: opts.thorough, mode: String::new() };
                 o.seed = o.seed.wrapping_add(1);
                 gen(&o, 4, if opts.thorough { 1200 } else { 120 })
+            } else if opts.mode == "small" {
+                gen_small(opts)
             } else {
                 gen(opts, conflict_rate, if opts.thorough { 4000 } else { 400 })
             }
@@ -821,7 +923,11 @@ pub fn run(opts: &Opts, replay: Option<Vec<serde_json::Value>>, out: &mut dyn Wr
                 emit(out, &l);
             }
         } else {
-            emit(out, &exec(c));
+            let mut l = exec(c);
+            if opts.mode == "small" {
+                l.group = "small-scope";
+            }
+            emit(out, &l);
         }
     }
 }
